@@ -20,8 +20,16 @@ import (
 // scratchDirs are removed on every exit path, also by die().
 var scratchDirs []string
 
+// violationsPrinted counts the VIOLATION lines already printed (each was verified by a replay in a
+// fresh process first).  Trouble after that does not take them back: the run ends with status 1.
+var violationsPrinted int
+
 func die(code int, f string, a ...interface{}) {
 	fmt.Fprintf(os.Stderr, "vcheck: "+f+"\n", a...)
+	if code == 2 && violationsPrinted > 0 {
+		fmt.Fprintf(os.Stderr, "vcheck: %d verified violation(s) were reported before this trouble; ending with status 1\n", violationsPrinted)
+		code = 1
+	}
 	cleanupTmp()
 	for _, d := range scratchDirs {
 		os.RemoveAll(d)
@@ -200,6 +208,9 @@ type violation struct {
 	Msg     string      `json:"msg"`
 	Sig     string      `json:"sig"`
 	LogHash string      `json:"log_hash"`
+	Base    uint64      `json:"base"`
+	From    uint64      `json:"from"`
+	Index   uint64      `json:"index"`
 }
 
 type batchRes struct {
